@@ -172,8 +172,9 @@ Section Theory.
   Proof.
     intros s ts r ks Hw Hb Hr.
     assert (Hst : step (Resume ts) s =
-              (St (listed s) (upload s) (Some (WG [] r)) (mcp s) (revs_of (List.concat r))
-                  (resident s ++ r) false, ROk)).
+              (St (listed s) (upload s) (Some (WG [] r))
+                  (mcp s ++ missing_comp C is_gc (visible s ++ List.concat r) (List.concat r))
+                  (revs_of (List.concat r)) (resident s ++ r) false, ROk)).
     { unfold WriteGroup.step. rewrite Hb, Hw, Hr. reflexivity. }
     simpl. rewrite Hst. simpl.
     set (s1 := St _ _ _ _ _ _ _). rewrite run_app.
@@ -232,7 +233,7 @@ Section Theory.
         destruct (kind_eqb (kind_of C k) KRev); [reflexivity|rewrite app_nil_r; reflexivity].
     - (* Resume *)
       destruct (resume_toks (upload s) (resident s) [] ts) as [r|r|] eqn:Hr; simpl.
-      + intros _. split; [exact Hm|]. simpl.
+      + intros _. split; [intro Hg; unfold missing_comp; rewrite Hg, (Hm Hg); reflexivity|]. simpl.
         destruct (resume_toks_ok _ _ _ _ _ Hr) as [Ha Hb'];
           [intros n []|constructor|].
         repeat split; try assumption. rewrite app_nil_r. reflexivity.
@@ -302,7 +303,9 @@ Section Theory.
     Inv s -> broken s = false -> wg s = Some w ->
     (* pack names are content hashes: the new pack is not byte-identical to a suspended one *)
     ~ In (wnew w) (upload s) ->
-    (reopen = true -> mcp s = []) ->
+    (* the object's missing-compression-parent memory agrees (as to emptiness) with what the
+       write group really lacks; see mcp_agrees_fresh for when this is guaranteed *)
+    (mcp s = [] <-> missing_comp C is_gc (view s) (wg_items w) = []) ->
     (reopen = false -> forall n, In n (wres w) \/ n = wnew w -> ~ In n (resident s)) ->
     let a := step Commit (suspend_resume reopen s) in
     let b := step Commit s in
@@ -334,13 +337,22 @@ Section Theory.
     assert (Hrs : resume_toks up resid [] (map TName toks) = RsOk toks).
     { apply (resume_all up resid toks []); [|exact Htoks_nd].
       intros n Hn. split; [apply Htoks_up|apply Htoks_res]; exact Hn. }
-    set (m2 := if reopen then [] else mcp s).
+    set (m2 := (if reopen then [] else mcp s) ++
+               missing_comp C is_gc (visible s ++ List.concat toks) (List.concat toks)).
     assert (Hs2 : suspend_resume reopen s =
                   St (listed s) up (Some (WG [] toks)) m2 (revs_of (List.concat toks)) (resid ++ toks) false).
     { unfold suspend_resume. rewrite Hsus. unfold m2. unfold resid in *. clear Htoks_res.
       destruct reopen; simpl; unfold WriteGroup.step; simpl; rewrite Hrs; reflexivity. }
-    assert (Hm2 : m2 = mcp s). { unfold m2. destruct reopen; [symmetry; apply Hmcp; reflexivity|reflexivity]. }
     assert (Hct : List.concat toks = List.concat (wres w) ++ wnew w) by apply concat_toks.
+    assert (Hm2 : m2 = [] <-> mcp s = []).
+    { unfold m2. rewrite Hct.
+      replace (visible s ++ List.concat (wres w) ++ wnew w) with (view s)
+        by (unfold view; rewrite Hw; reflexivity).
+      fold (wg_items w). destruct reopen; simpl.
+      - symmetry. exact Hmcp.
+      - split; intro H.
+        + apply app_eq_nil in H. apply H.
+        + rewrite H. simpl. apply Hmcp. exact H. }
     set (s2 := suspend_resume reopen s) in *.
     assert (Hview : view s2 = view s).
     { rewrite Hs2. unfold view, visible, wg_items. simpl. rewrite Hw. unfold wg_items.
@@ -358,12 +370,14 @@ Section Theory.
     cbv zeta. unfold WriteGroup.step.
     assert (Hb2 : broken s2 = false) by (rewrite Hs2; reflexivity).
     assert (Hw2 : wg s2 = Some (WG [] toks)) by (rewrite Hs2; reflexivity).
-    assert (Hmm : mcp s2 = mcp s) by (rewrite Hs2; exact Hm2).
-    rewrite Hb2, Hw2, Hb, Hw, Hmm, Hchk. simpl wnew. simpl wres. rewrite Hrefs.
+    assert (Hmm : mcp s2 = [] <-> mcp s = []) by (rewrite Hs2; exact Hm2).
+    rewrite Hb2, Hw2, Hb, Hw, Hchk. simpl wnew. simpl wres. rewrite Hrefs.
     assert (Hvis2 : forall k, In k (visible s2) <-> In k (visible s)).
     { intro k. rewrite Hs2. unfold visible. simpl. tauto. }
-    destruct (mcp s) as [|m ms]; simpl;
-      [|split; [reflexivity|split; [exact Hvis2|intro Hx; discriminate Hx]]].
+    destruct (mcp s2) as [|m' ms'] eqn:E2; destruct (mcp s) as [|m ms] eqn:E1; simpl.
+    2: { exfalso. assert (Hx := proj1 Hmm eq_refl). discriminate Hx. }
+    2: { exfalso. assert (Hx := proj2 Hmm eq_refl). discriminate Hx. }
+    2: { split; [reflexivity|split; [exact Hvis2|intro Hx; discriminate Hx]]. }
     destruct (is_gc && negb (check_new_inventories s)); simpl;
       [split; [reflexivity|split; [exact Hvis2|intro Hx; discriminate Hx]]|].
     destruct (refs_ok (view s) (wnew w) && forallb (refs_ok (view s)) (wres w)); simpl.
@@ -375,6 +389,142 @@ Section Theory.
         destruct (wnew w) as [|k0 l]; [rewrite app_nil_r; reflexivity|].
         apply nremove_snoc. exact Hfresh.
     - split; [reflexivity|split; [exact Hvis2|intro Hx; discriminate Hx]].
+  Qed.
+
+  (* ---------- when does the guard hold?  a write group built by inserts on an object whose
+     memory was empty (e.g. a fresh object) ---------- *)
+  Lemma In_remove : forall c k l, In c (remove k l) <-> In c l /\ c <> k.
+  Proof.
+    intros c k l. unfold remove. rewrite filter_In, negb_true_iff, N.eqb_neq.
+    split; intros [H1 H2]; split; auto.
+  Qed.
+
+  Lemma missing_fold_In : forall v items acc c,
+    In c (fold_left (fun acc k => match comp_of C k with
+                                  | Some c' => if mem c' v || mem c' acc then acc else acc ++ [c']
+                                  | None => acc end) items acc) <->
+    In c acc \/ (~ In c v /\ exists k, In k items /\ comp_of C k = Some c).
+  Proof.
+    intros v. induction items as [|k items IH]; intros acc c; simpl.
+    - split; [intro H; left; exact H|]. intros [H|(_ & k & [] & _)]. exact H.
+    - rewrite IH. clear IH. destruct (comp_of C k) as [c'|] eqn:Ek.
+      + destruct (mem c' v || mem c' acc) eqn:Ec.
+        * split.
+          -- intros [H|(Hv & k0 & Hk0 & Hc0)]; [left; exact H|]. right. split; [exact Hv|].
+             exists k0. split; [right; exact Hk0|exact Hc0].
+          -- intros [H|(Hv & k0 & [Hk0|Hk0] & Hc0)]; [left; exact H| |].
+             ++ subst k0. rewrite Ek in Hc0. inversion Hc0; subst c'.
+                apply orb_true_iff in Ec. destruct Ec as [Ec|Ec]; apply mem_In in Ec;
+                  [contradiction|left; exact Ec].
+             ++ right. split; [exact Hv|]. exists k0. split; assumption.
+        * apply orb_false_iff in Ec. destruct Ec as [Ev Ea]. apply mem_false_In in Ev.
+          split.
+          -- intros [H|(Hv & k0 & Hk0 & Hc0)].
+             ++ apply in_app_iff in H. destruct H as [H|[H|[]]]; [left; exact H|]. subst c'.
+                right. split; [exact Ev|]. exists k. split; [left; reflexivity|exact Ek].
+             ++ right. split; [exact Hv|]. exists k0. split; [right; exact Hk0|exact Hc0].
+          -- intros [H|(Hv & k0 & [Hk0|Hk0] & Hc0)].
+             ++ left. apply in_app_iff. left. exact H.
+             ++ subst k0. rewrite Ek in Hc0. inversion Hc0; subst c'.
+                left. apply in_app_iff. right. left. reflexivity.
+             ++ right. split; [exact Hv|]. exists k0. split; assumption.
+      + split.
+        * intros [H|(Hv & k0 & Hk0 & Hc0)]; [left; exact H|]. right. split; [exact Hv|].
+          exists k0. split; [right; exact Hk0|exact Hc0].
+        * intros [H|(Hv & k0 & [Hk0|Hk0] & Hc0)]; [left; exact H| |].
+          -- subst k0. rewrite Ek in Hc0. discriminate Hc0.
+          -- right. split; [exact Hv|]. exists k0. split; assumption.
+  Qed.
+
+  Lemma missing_comp_In : forall v items c,
+    In c (missing_comp C is_gc v items) <->
+    (is_gc = false /\ ~ In c v /\ exists k, In k items /\ comp_of C k = Some c).
+  Proof.
+    intros v items c. unfold missing_comp. destruct is_gc.
+    - split; [intros []|intros [H _]; discriminate H].
+    - rewrite missing_fold_In. split.
+      + intros [[]|H]. split; [reflexivity|exact H].
+      + intros [_ H]. right. exact H.
+  Qed.
+
+  (* the memory is exactly the set of compression parents the group lacks *)
+  Definition mcp_exact (s : state) : Prop :=
+    match wg s with
+    | Some w => forall c, In c (mcp s) <-> In c (missing_comp C is_gc (view s) (wg_items w))
+    | None => True
+    end.
+
+  Lemma mcp_exact_ins : forall s w k, wg s = Some w -> broken s = false ->
+    mcp_exact s -> mcp_exact (fst (step (Ins k) s)).
+  Proof.
+    intros s w k Hw Hb HJ. rewrite (step_ins s w k Hw Hb). unfold mcp_exact in *. rewrite Hw in HJ. simpl.
+    assert (Hitems : wg_items (WG (wnew w ++ [k]) (wres w)) = wg_items w ++ [k])
+      by (unfold wg_items; simpl; apply app_assoc).
+    rewrite Hitems.
+    set (s1 := St _ _ _ _ _ _ _).
+    assert (Hview : view s1 = view s ++ [k]).
+    { unfold view. simpl. rewrite Hw, Hitems. apply app_assoc. }
+    rewrite Hview. intro c. rewrite missing_comp_In. unfold mcp_after_insert.
+    rewrite In_remove, in_app_iff. specialize (HJ c). rewrite missing_comp_In in HJ.
+    destruct is_gc eqn:Hg.
+    - split.
+      + intros [[H|[]] _]. apply HJ in H. destruct H as [H _]. discriminate H.
+      + intros [H _]. discriminate H.
+    - split.
+      + intros [[H|H] Hne].
+        * apply HJ in H. destruct H as (_ & Hv & k0 & Hk0 & Hc0).
+          split; [reflexivity|]. split.
+          -- rewrite in_app_iff. intros [Hx|[Hx|[]]]; [contradiction|]. apply Hne. symmetry. exact Hx.
+          -- exists k0. split; [apply in_app_iff; left; exact Hk0|exact Hc0].
+        * destruct (comp_of C k) as [p|] eqn:Ek; [|destruct H].
+          destruct (mem p (view s) || mem p (mcp s)) eqn:Ec; [destruct H|].
+          destruct H as [H|[]]. subst p. apply orb_false_iff in Ec. destruct Ec as [Ev _].
+          apply mem_false_In in Ev. split; [reflexivity|]. split.
+          -- rewrite in_app_iff. intros [Hx|[Hx|[]]]; [contradiction|]. apply Hne. symmetry. exact Hx.
+          -- exists k. split; [apply in_app_iff; right; left; reflexivity|exact Ek].
+      + intros (_ & Hv & k0 & Hk0 & Hc0). rewrite in_app_iff in Hv.
+        assert (Hv1 : ~ In c (view s)) by (intro Hx; apply Hv; left; exact Hx).
+        assert (Hne : c <> k) by (intro Hx; apply Hv; right; left; symmetry; exact Hx).
+        split; [|exact Hne].
+        apply in_app_iff in Hk0. destruct Hk0 as [Hk0|[Hk0|[]]].
+        * left. apply HJ. split; [reflexivity|]. split; [exact Hv1|]. exists k0. split; assumption.
+        * subst k0. rewrite Hc0.
+          destruct (mem c (view s) || mem c (mcp s)) eqn:Ec.
+          -- apply orb_true_iff in Ec. destruct Ec as [Ec|Ec]; apply mem_In in Ec;
+               [contradiction|left; exact Ec].
+          -- right. left. reflexivity.
+  Qed.
+
+  Lemma mcp_exact_inserts : forall ks s w, wg s = Some w -> broken s = false ->
+    mcp_exact s -> mcp_exact (run (map Ins ks) s).
+  Proof.
+    induction ks as [|k ks IH]; intros s w Hw Hb HJ; simpl; [exact HJ|].
+    assert (H1 := mcp_exact_ins s w k Hw Hb HJ). revert H1.
+    rewrite (step_ins s w k Hw Hb). simpl. intro H1.
+    eapply IH; [reflexivity|reflexivity|exact H1].
+  Qed.
+
+  Lemma same_In_nil : forall (a b : list N), (forall c, In c a <-> In c b) -> (a = [] <-> b = []).
+  Proof.
+    intros a b H. split; intro E; subst.
+    - destruct b as [|x b]; [reflexivity|]. exfalso. apply (proj2 (H x)). left. reflexivity.
+    - destruct a as [|x a]; [reflexivity|]. exfalso. apply (proj1 (H x)). left. reflexivity.
+  Qed.
+
+  Theorem mcp_agrees_fresh : forall s0 ks, wg s0 = None -> broken s0 = false -> mcp s0 = [] ->
+    let s := run (Start :: map Ins ks) s0 in
+    broken s = false /\ wg s = Some (WG ks []) /\
+    (mcp s = [] <-> missing_comp C is_gc (view s) (wg_items (WG ks [])) = []).
+  Proof.
+    intros s0 ks Hw Hb Hm. simpl. rewrite (step_start s0 Hw Hb). simpl.
+    set (s1 := St _ _ _ _ _ _ _).
+    destruct (run_inserts_shape ks s1 (WG [] []) eq_refl eq_refl) as (_ & _ & _ & H4 & H5 & _).
+    simpl in H5. split; [exact H4|]. split; [exact H5|].
+    assert (HJ : mcp_exact (run (map Ins ks) s1)).
+    { apply (mcp_exact_inserts ks s1 (WG [] [])); try reflexivity.
+      unfold mcp_exact. simpl. intro c. rewrite Hm, missing_comp_In. split; [intros []|].
+      intros (_ & _ & k & [] & _). }
+    unfold mcp_exact in HJ. rewrite H5 in HJ. apply same_In_nil. exact HJ.
   Qed.
 
   (* ---------- T3: a commit that raises leaves the disk alone ---------- *)
@@ -528,16 +678,23 @@ Theorem abort_stale_refuted :
     snd (step cat_knit false Commit (run cat_knit false [Start; Ins k] init)) = ROk.
 Proof. exists [43], 42. vm_compute. split; reflexivity. Qed.
 
-(* suspend ; reopen ; resume ; commit is NOT commit for knit repositories: the direct commit is a
-   clean refusal, the resumed one fails inside Pack.finish and leaves the write group torn *)
-Theorem suspend_reopen_resume_commit_knit_refuted :
+(* suspend ; reopen ; resume ; commit vs commit WITHOUT the guard: after an aborted group left a
+   stale missing compression parent in the object's memory, the direct commit of a complete group is
+   refused, while the same group suspended and resumed by a fresh object is accepted *)
+Theorem suspend_reopen_resume_commit_stale_refuted :
   exists ops,
     let s := run cat_knit false ops init in
     snd (step cat_knit false Commit s) = RErr ECheck /\
-    fst (step cat_knit false Commit s) = s /\
-    snd (step cat_knit false Commit (suspend_resume cat_knit false true s)) = RErr ECheckFinish /\
-    broken (fst (step cat_knit false Commit (suspend_resume cat_knit false true s))) = true.
-Proof. exists [Start; Ins 43]. vm_compute. repeat split; reflexivity. Qed.
+    snd (step cat_knit false Commit (suspend_resume cat_knit false true s)) = ROk.
+Proof. exists [Start; Ins 43; Abort; Start; Ins 42]. vm_compute. split; reflexivity. Qed.
+
+(* behaviour that was repaired by /repo commit 3775d0a and must stay repaired: a fresh object that
+   resumes a knit group with a pending missing compression parent REFUSES the commit cleanly *)
+Theorem resumed_missing_parent_is_refused :
+  let s := run cat_knit false [Start; Ins 43] init in
+  step cat_knit false Commit (suspend_resume cat_knit false true s) =
+    (suspend_resume cat_knit false true s, RErr ECheck).
+Proof. vm_compute. reflexivity. Qed.
 
 (* on the SAME object a write group that was resumed once cannot be suspended and resumed again *)
 Theorem resume_again_same_object_refuted :
